@@ -198,14 +198,25 @@ pub struct Sched<'a, 'b> {
     pub k1_moved: u64,
     /// issue every read-only query at every opportunity (used with the canonical schedule)
     pub always_query: bool,
+    /// arrival style for the whole exchange: 0 mixed, 1 always one byte, 2 always `arrive_k` bytes, 3 everything at once
+    pub arrive_style: u8,
+    pub arrive_k: usize,
+    /// buffer style: 0 mixed, 1 always `buf_k` bytes (tiny), 2 ample
+    pub buf_style: u8,
+    pub buf_k: usize,
 }
 
 impl<'a, 'b> Sched<'a, 'b> {
     pub fn canonical() -> Sched<'static, 'static> {
-        Sched { tape: None, idle: 0, forced: 0, splits: [0; 4], queries: 0, premature_budget: 0, k1_moved: 0, always_query: false }
+        Sched { tape: None, idle: 0, forced: 0, splits: [0; 4], queries: 0, premature_budget: 0, k1_moved: 0, always_query: false, arrive_style: 0, arrive_k: 1, buf_style: 0, buf_k: 1 }
     }
     pub fn from_tape(t: &'a mut Tape<'b>) -> Self {
-        Sched { tape: Some(t), idle: 0, forced: 0, splits: [0; 4], queries: 0, premature_budget: 0, k1_moved: 0, always_query: false }
+        // a persistent style per run: mixed choices rarely produce a long trickle or a whole body through a tiny buffer
+        let arrive_style = t.weighted(&[5, 2, 2, 1]) as u8;
+        let arrive_k = t.range(2, 7);
+        let buf_style = t.weighted(&[6, 2, 1]) as u8;
+        let buf_k = t.range(1, 9);
+        Sched { tape: Some(t), idle: 0, forced: 0, splits: [0; 4], queries: 0, premature_budget: 0, k1_moved: 0, always_query: false, arrive_style, arrive_k, buf_style, buf_k }
     }
     /// whether to interleave the read-only queries here
     pub fn query(&mut self, pct: usize) -> bool {
@@ -258,8 +269,15 @@ impl<'a, 'b> Sched<'a, 'b> {
     }
     pub fn body_out(&mut self, offered: usize) -> usize {
         let ample = offered + offered / 500 + 64;
+        let (style, k) = (self.buf_style, self.buf_k);
         match self.live() {
             None => ample,
+            Some(_) if style == 1 => k + 5,
+            Some(t) if style == 2 => {
+                // exact fits around the offered size: hex-digit boundaries show here
+                let digits = format!("{:x}", offered.max(1)).len();
+                offered + digits + 4 + t.below(3)
+            }
             Some(t) => match t.weighted(&[3, 3, 2, 2, 1, 1]) {
                 0 => ample,
                 1 => t.below(13),
@@ -275,8 +293,12 @@ impl<'a, 'b> Sched<'a, 'b> {
         if available == 0 {
             return 0;
         }
+        let (style, k) = (self.arrive_style, self.arrive_k);
         match self.live() {
             None => available,
+            Some(_) if style == 1 => 1,
+            Some(_) if style == 2 => k.min(available),
+            Some(_) if style == 3 => available,
             Some(t) => match t.weighted(&[3, 3, 1, 2, 1]) {
                 0 => available,
                 1 => 1,
@@ -287,8 +309,11 @@ impl<'a, 'b> Sched<'a, 'b> {
         }
     }
     pub fn read_out(&mut self, window: usize) -> usize {
+        let (style, k) = (self.buf_style, self.buf_k);
         match self.live() {
             None => window + 64,
+            Some(_) if style == 1 => k,
+            Some(_) if style == 2 => window + 64,
             Some(t) => match t.weighted(&[3, 3, 2, 1]) {
                 0 => window + 64,
                 1 => t.range(0, 8),
